@@ -525,6 +525,11 @@ func quiescent(c *common.Ctx, r *common.Rand) error {
 		{Op: "wtx", Frames: [][2]uint64{{4, 54}, {4, 55}}, NewSize: 5},
 		{Op: "appckpt", CkptMode: 3},
 		{Op: "wtx", Frames: [][2]uint64{{2, 62}}, NewSize: 5},
+		// a transaction that spilled frames into the log rolls back; LiteFS checkpoints on its own (role change, halt lock)
+		// while those frames sit, valid and uncommitted, behind the last commit
+		{Op: "wabort", Aborted: [][2]uint64{{3, 73}, {4, 74}}, CkptMode: 1},
+		{Op: "wtx", Frames: [][2]uint64{{5, 85}}, NewSize: 5},
+		{Op: "wabort", Aborted: [][2]uint64{{1, 91}, {2, 92}, {6, 96}}, CkptMode: 1},
 	}
 	for i, st := range script {
 		ob := g.h.Exec(st)
